@@ -8,6 +8,8 @@ from .. import paths
 from ..core import FUNC, call_attr, calls_in, dotted, norm, text, walk_local
 
 EXPLANATION = [
+    'C04.fifo: every deque of the anchored modules that is filled with append / extend is emptied with popleft or by iteration (never pop()), and conversely: queued entries come out in the order they went in.',
+    'C04.one-shot: no name bound to a generator expression or to filter() / map() / zip() / reversed() / enumerate() is read in more than one consuming position or inside a loop that evaluates it repeatedly: such an iterator is empty after its first walk.',
     'C04.bounded-buffers: the host data queue and the flow-controlled pipe keep waiting packets in unbounded containers: a long backlog is never shortened silently.',
     'C04.flush-handle: every call of a data queue\'s flush() in Host passes the connection handle of the link being removed (the key used on a *_links / connections table, or `.handle` of the link object taken from such a table), so the buffers of a removed link are really given back.',
     'C04.shared-state: no class of the anchored modules keeps per-instance state in an object shared by all instances (an empty mutable container or synchronisation object as class-level default that is read through self and not rebound in __init__, or as a dataclass field default); process-wide registries are listed by name.',
@@ -575,7 +577,19 @@ def bounded_buffers_rule(ctx):
     g.bounded_buffers(ctx, 'C04.bounded-buffers', ['bumble.host', 'bumble.utils'])
 
 
+def one_shot_rule(ctx):
+    from ..generic_rules import one_shot_iterators
+    one_shot_iterators(ctx, 'C04.one-shot', ['bumble.host'])
+
+
+def fifo_rule(ctx):
+    from ..generic_rules import fifo_discipline
+    fifo_discipline(ctx, 'C04.fifo', ['bumble.host', 'bumble.utils'])
+
+
 RULES = [
+    ('C04.fifo', fifo_rule),
+    ('C04.one-shot', one_shot_rule),
     ('C04.bounded-buffers', bounded_buffers_rule),
     ('C04.flush-handle', flush_handle),
     ('C04.shared-state', shared_state_rule),
